@@ -146,7 +146,7 @@ func (fx *c07Fx) viol(run *c07Run, sig, what string) {
 		}
 		f = fmt.Sprintf("%s injected at keeper call %d (%s)", kind, run.FailAt, name)
 	}
-	fx.rep.Violate(Violation{Case: fx.baseIdx, Step: run.FailAt, Sig: sig,
+	fx.rep.Violate(Violation{Case: fx.rep.Cases + 1, Step: run.FailAt, Sig: sig,
 		What: fmt.Sprintf("%s [recipient=%s amount=%s hook=%s; %s; calls=%s; result=%v %s]", what, run.Shape.Rcp, run.Shape.AmtName, run.Shape.Hook, f,
 			strings.Join(run.Calls, ","), run.Res.OK, run.Res.Err),
 		Ops: opsCoq([]L2Op{run.Op})})
